@@ -83,6 +83,40 @@ def decCTok (s : String) : Option CToken :=
   else if s.startsWith "CN:" then CToken.CName <$> decName (s.drop 3).toString
   else none
 
+def decTok (s : String) : Option Token :=
+  if s == "L" then some .Lambda
+  else if s == "(" then some .Lparen
+  else if s == ")" then some .Rparen
+  else if s.startsWith "N" then Token.Number <$> (s.drop 1).toString.toNat?
+  else none
+
+/-- expressions on the wire, prefix form: `A` (Abstraction), `V<i>` (Variable), `S<n>` followed by n expressions -/
+partial def showExpr : Expression → String
+  | .Abstraction => "A"
+  | .Variable i => "V" ++ toString i
+  | .Sequence es => " ".intercalate (("S" ++ toString es.length) :: es.map showExpr)
+
+mutual
+partial def decExpr : List String → Option (Expression × List String)
+  | [] => none
+  | w :: rest =>
+    if w == "A" then some (.Abstraction, rest)
+    else if w.startsWith "V" then do
+      let i ← (w.drop 1).toString.toNat?
+      pure (.Variable i, rest)
+    else if w.startsWith "S" then do
+      let n ← (w.drop 1).toString.toNat?
+      let (es, rest') ← decExprs n rest
+      pure (.Sequence es, rest')
+    else none
+partial def decExprs : Nat → List String → Option (List Expression × List String)
+  | 0, ts => some ([], ts)
+  | n+1, ts => do
+    let (e, r) ← decExpr ts
+    let (more, r') ← decExprs n r
+    pure (e :: more, r')
+end
+
 def showCps (s : List Nat) : String :=
   toString s.length ++ s.foldl (fun acc c => acc ++ " " ++ toString c) ""
 
@@ -117,6 +151,20 @@ def exec2 (toks : List String) : String :=
       pure (match convertClassicTokens cts with
         | some ts => " ".intercalate ("ok" :: ts.map showTok)
         | none => "panic")).getD "bad-op"
+  | "ast" :: n :: rest =>
+    (do
+      let n' ← n.toNat?
+      let ts ← (rest.take n').mapM decTok
+      pure (match getAst ts with
+        | .ok e => "ok " ++ showExpr e
+        | .error e => showErr e)).getD "bad-op"
+  | "fold" :: n :: rest =>
+    (do
+      let n' ← n.toNat?
+      let (es, _) ← decExprs n' rest
+      pure (match foldExprs es with
+        | .ok t => "ok " ++ showTerm t
+        | .error e => showErr e)).getD "bad-op"
   | "parse" :: nota :: n :: rest =>
     (do
       let n' ← n.toNat?
